@@ -42,6 +42,18 @@
  *           operator), one reciprocal, one product, one sum is (n+3) eps/2 of that scale, so the head-room is >= 4x the proof
  *           bound; worst observed ratio over seeds 1..5 (thorough): 0.13, reported through VF_MAX.
  *
+ * Reconfiguration between steps (clauses added for seeded change C12-J, in which a refactoring of a_pid_fuzzy_out_ stopped re-deriving the
+ *   effective gain of a gain without rule table, so that pid.k? became state carried from call to call): "every history ... any gains and
+ *   limits" includes histories in which the configuration changes between two steps - the headers offer setters without restricting them
+ *   to the time before the first step and document the configuration as public fields.  In every fourth block of the plan seven cases are
+ *   reconfiguration-dense (<= 160 steps, one reconfiguration before about every 6th step, zeroing about every 25 steps): plain PID
+ *   (a_pid_set_kpid, fields kp/ki/kd, limit fields), fuzzy (fz_reconfigure: a_pid_fuzzy_set_rule with another order / tables / NULL pattern and
+ *   a_pid_fuzzy_set_bfuzz, a_pid_fuzzy_set_kpid, base fields, a_pid_fuzzy_set_opr, the gains of the embedded a_pid, limit fields), neuron
+ *   (a_pid_neuro_set_kpid / set_wpid, fields k, wp, wi, wd, learning constants, output limits).  The oracles are the ones above, evaluated with the
+ *   configuration in force at the step (the harness's own record of what it set last); in addition: a setter stores its arguments and leaves
+ *   state, limits and the other configuration as they are; the effective gain of a fuzzy gain whose table is NULL equals the base gain in
+ *   force bitwise after every step; the zero-vs-fresh twin is built with the configuration in force and follows later reconfigurations.
+ *
  * Defects of liba first reported by this harness (both repaired in /repo since; the keys stay as regression keys):
  *   pid_fuzzy/state-not-finite/all-joint-memberships-zero   bounded product: sets of e and ec fire but every J_ij = 0 -> 1/0 -> NaN
  *     gains and integrator from then on (fix e9ff772: base gains are kept when the sum of the joint memberships is 0, which is
@@ -371,18 +383,37 @@ static void judge_zeroed(int ctl, a_pid const *c, char const *how)
 }
 
 /* twin comparison: a zeroed controller and a freshly initialised one must agree bitwise on everything they compute */
-static void judge_twin(int ctl, int mode, unsigned k, a_pid const *a, double ra, a_pid const *t, double rt)
+static void judge_twin(int ctl, int mode, unsigned k, a_pid const *a, double ra, a_pid const *t, double rt, int after_reconf)
 {
     char key[128], b1[512], b2[512];
     VF_COUNT("zero-twin-bitwise");
+    /* after_reconf: the controller has been reconfigured at least once in this history before or after the zeroing; the twin was created
+       from garbage memory with the configuration in force at the zeroing and has received every later reconfiguration through the setters */
+    if (after_reconf) { VF_COUNT("zero-then-suffix-eq-fresh-after-reconfiguration"); }
     if (memcmp(&ra, &rt, sizeof(double)) || memcmp(&a->sum, &t->sum, sizeof(double)) || memcmp(&a->out, &t->out, sizeof(double)) ||
         memcmp(&a->var, &t->var, sizeof(double)) || memcmp(&a->fdb, &t->fdb, sizeof(double)) || memcmp(&a->err, &t->err, sizeof(double)) ||
         memcmp(&a->kp, &t->kp, sizeof(double)) || memcmp(&a->ki, &t->ki, sizeof(double)) || memcmp(&a->kd, &t->kd, sizeof(double)))
     {
         if ((isnan(ra) && isnan(rt)) || (isnan(a->sum) && isnan(t->sum))) { return; } /* NaN payloads: reported by the finiteness clause */
-        vf_viol(keyf(key, sizeof key, "%s_zero/zeroed-controller-differs-from-fresh-one", CTL_NAME[ctl]),
-                "step %u after zero, mode %s: zeroed controller returned %a state %s, freshly initialised twin returned %a state %s", k, MODE_NAME[mode], ra,
-                fmt_pid(b1, sizeof b1, a), rt, fmt_pid(b2, sizeof b2, t));
+        vf_viol(keyf(key, sizeof key, after_reconf ? "%s_zero/suffix-differs-from-fresh-controller/after-reconfiguration" : "%s_zero/zeroed-controller-differs-from-fresh-one", CTL_NAME[ctl]),
+                "step %u after zero, mode %s%s: zeroed controller returned %a state %s, freshly initialised twin returned %a state %s", k, MODE_NAME[mode],
+                after_reconf ? " (history with reconfiguration; the twin holds the same configuration in force)" : "", ra, fmt_pid(b1, sizeof b1, a), rt, fmt_pid(b2, sizeof b2, t));
+    }
+}
+
+/* A reconfiguration through the library (a setter call between two steps) changes the configuration it names and nothing else: the
+   controller STATE (integrator, last output, cached derivative term / feedback / error) and the limits are as before, so the documented
+   equations continue from the same state with the new configuration.  `which` is the name of the setter (stable key component). */
+static void judge_state_kept(int ctl, char const *which, unsigned k, a_pid const *before, a_pid const *after)
+{
+    char key[160], b1[512], b2[512];
+    VF_COUNT("reconfiguration-leaves-state-untouched");
+    if (memcmp(&before->sum, &after->sum, sizeof(double)) || memcmp(&before->out, &after->out, sizeof(double)) || memcmp(&before->var, &after->var, sizeof(double)) ||
+        memcmp(&before->fdb, &after->fdb, sizeof(double)) || memcmp(&before->err, &after->err, sizeof(double)) || memcmp(&before->summax, &after->summax, 2 * sizeof(double)) ||
+        memcmp(&before->outmax, &after->outmax, 2 * sizeof(double)))
+    {
+        vf_viol(keyf(key, sizeof key, "%s/state-or-limit-changed-by-reconfiguration/%s", CTL_NAME[ctl], which), "before step %u: a_%s changed a state or limit field: before %s after %s", k,
+                which, fmt_pid(b1, sizeof b1, before), fmt_pid(b2, sizeof b2, after));
     }
 }
 
@@ -572,9 +603,12 @@ static void judge_gains_kept(unsigned k, a_pid const *before, a_pid const *after
 
 /* exact regime, one controller, random mode switches, zero + fresh twin, occasional gain/limit changes; real regime: same driver
    without the equation oracle */
-static void case_pid(vf_rng *r, int exact)
+static void case_pid(vf_rng *r, int exact, int reconf)
 {
-    unsigned const L = gen_len(r);
+    /* reconf: reconfiguration-dense history (<= 160 steps): on about every 6th step the controller is retuned through a_pid_set_kpid, through a
+       write to one of the public fields kp/ki/kd, or gets new limits through the public fields summax/summin/outmax/outmin, and it is zeroed
+       about every 25 steps; every step is judged with the configuration in force (the harness's own record of what it wrote) */
+    unsigned const L = reconf ? 4 + (unsigned)vf_below(r, 157) : gen_len(r);
     double const R = exact ? (double)vf_range(r, 1, vf_chance(r, 1, 2) ? 30 : 1000) : vf_logu(r, -3, 6);
     int const ls = (int)vf_below(r, LS_N), gc = (int)vf_below(r, G_NCLS);
     double kp, ki, kd;
@@ -584,7 +618,7 @@ static void case_pid(vf_rng *r, int exact)
     qst ref = QST_ZERO;
     int mode = (int)vf_below(r, 3);
     unsigned const psw = vf_chance(r, 1, 3) ? 0 : (unsigned)vf_range(r, 2, 200);
-    unsigned k, since_zero = 0, nclamp[3] = {0, 0, 0}, ninh = 0;
+    unsigned k, since_zero = 0, nclamp[3] = {0, 0, 0}, ninh = 0, nrec = 0;
     double last = 0;
     if (exact)
     {
@@ -600,8 +634,8 @@ static void case_pid(vf_rng *r, int exact)
     }
     gen_limits(r, ls, exact, R, &lim);
     gen_init(&g, r, gc, exact, R, L);
-    vf_log("plain a_pid, %s regime: kp=%a ki=%a kd=%a summax=%a summin=%a outmax=%a outmin=%a (limits: %s), %u steps, input=%s amplitude=%a, mode switch 1/%u", exact ? "exact" : "real", kp,
-           ki, kd, lim.summax, lim.summin, lim.outmax, lim.outmin, LS_NAME[ls], L, G_NAME[gc], R, psw);
+    vf_log("plain a_pid, %s regime%s: kp=%a ki=%a kd=%a summax=%a summin=%a outmax=%a outmin=%a (limits: %s), %u steps, input=%s amplitude=%a, mode switch 1/%u", exact ? "exact" : "real",
+           reconf ? ", reconfiguration-dense history" : "", kp, ki, kd, lim.summax, lim.summin, lim.outmax, lim.outmin, LS_NAME[ls], L, G_NAME[gc], R, psw);
     c = pid_new(kp, ki, kd, &lim);
     judge_zeroed(CTL_PID, c, "a_pid_init on a garbage-filled struct");
     VF_COUNT("init-zero-state");
@@ -612,7 +646,7 @@ static void case_pid(vf_rng *r, int exact)
         a_pid before;
         qstep o;
         /* events between steps */
-        if (since_zero > 0 && vf_below(r, 400) == 0)
+        if (since_zero > 0 && vf_below(r, reconf ? 25 : 400) == 0)
         {
             vf_log("k=%u a_pid_zero + fresh twin", k);
             a_pid_zero(c);
@@ -624,7 +658,52 @@ static void case_pid(vf_rng *r, int exact)
             since_zero = 0;
             VF_COUNT("zero-mid-history");
         }
-        if (vf_below(r, 600) == 0)
+        if (reconf && vf_below(r, 6) == 0)
+        {
+            /* reconfiguration through every documented route: the setter, the public gain fields, the public limit fields (a_pid has no
+               limit setter: pid.h documents summax/summin/outmax/outmin as plain fields, test/pid.c writes them directly) */
+            a_pid const snap = *c;
+            switch (vf_below(r, 3))
+            {
+            case 0:
+                kp = exact ? gen_gain16(r, -64, 64) : vf_sign(r) * vf_logu(r, -6, 6);
+                ki = vf_chance(r, 1, 6) ? 0.0 : exact ? gen_gain16(r, 0, 64) : vf_logu(r, -6, 6);
+                kd = vf_chance(r, 1, 4) ? 0.0 : exact ? gen_gain16(r, -64, 64) : vf_sign(r) * vf_logu(r, -6, 6);
+                vf_log("k=%u a_pid_set_kpid(kp=%a ki=%a kd=%a)", k, kp, ki, kd);
+                a_pid_set_kpid(c, kp, ki, kd);
+                judge_state_kept(CTL_PID, "pid_set_kpid", k, &snap, c);
+                if (twin) { a_pid_set_kpid(twin, kp, ki, kd); }
+                VF_COUNT("pid-set-kpid-mid-history");
+                break;
+            case 1:
+            {
+                int const which = (int)vf_below(r, 3);
+                double const v = which == 1 ? (vf_chance(r, 1, 6) ? 0.0 : exact ? gen_gain16(r, 0, 64) : vf_logu(r, -6, 6)) : exact ? gen_gain16(r, -64, 64) : vf_sign(r) * vf_logu(r, -6, 6);
+                vf_log("k=%u write to the public field %s = %a", k, which == 0 ? "kp" : which == 1 ? "ki" : "kd", v);
+                if (which == 0) { kp = c->kp = v; if (twin) { twin->kp = v; } }
+                else if (which == 1) { ki = c->ki = v; if (twin) { twin->ki = v; } }
+                else { kd = c->kd = v; if (twin) { twin->kd = v; } }
+                VF_COUNT("pid-gain-field-written-between-steps");
+                break;
+            }
+            default:
+            {
+                lim_t nl;
+                int const which = (int)vf_below(r, 3); /* the output pair, the integrator pair, or all four */
+                gen_limits(r, (int)vf_below(r, LS_N), exact, R, &nl);
+                lim = limits_of(c);
+                if (which != 1) { lim.outmax = nl.outmax; lim.outmin = nl.outmin; }
+                if (which != 0) { lim.summax = nl.summax; lim.summin = nl.summin; }
+                vf_log("k=%u write to the public limit fields: summax=%a summin=%a outmax=%a outmin=%a", k, lim.summax, lim.summin, lim.outmax, lim.outmin);
+                set_limits(c, &lim);
+                if (twin) { set_limits(twin, &lim); }
+                VF_COUNT("pid-limit-field-written-between-steps");
+                break;
+            }
+            }
+            ++nrec;
+        }
+        if (!reconf && vf_below(r, 600) == 0)
         {
             /* the user retunes / changes limits in mid-history (public fields); stays inside the quantifier */
             if (vf_chance(r, 1, 2))
@@ -647,8 +726,22 @@ static void case_pid(vf_rng *r, int exact)
         mode = next_mode(r, mode, psw, 7);
         gen_next(&g, r, k, last, &set, &fdb);
         before = *c;
+        if (reconf)
+        {
+            /* the configuration in force is what the harness wrote last (its own record kp/ki/kd/lim), and the fields hold exactly that */
+            lim_t const in_force = lim;
+            lim = limits_of(c);
+            VF_COUNT("configuration-fields-hold-what-was-written");
+            if (!(c->kp == kp && c->ki == ki && c->kd == kd) || memcmp(&in_force, &lim, sizeof(lim)))
+            {
+                char b1[512];
+                vf_viol("pid/configuration-field-ne-value-written", "before step %u: written kp=%a ki=%a kd=%a summax=%a summin=%a outmax=%a outmin=%a, controller holds %s", k, kp, ki, kd,
+                        in_force.summax, in_force.summin, in_force.outmax, in_force.outmin, fmt_pid(b1, sizeof b1, c));
+            }
+            if (nrec) { VF_COUNT("steps-judged-after-reconfiguration"); }
+        }
         lim = limits_of(c);
-        o = ref_pid(exact ? &ref : &(qst){before.sum, before.out, before.var, before.fdb, before.err}, mode, c->kp, c->ki, c->kd, &lim, set, fdb);
+        o = ref_pid(exact ? &ref : &(qst){before.sum, before.out, before.var, before.fdb, before.err}, mode, reconf ? kp : c->kp, reconf ? ki : c->ki, reconf ? kd : c->kd, &lim, set, fdb);
         log_step(mode == M_RUN ? "pid_run" : mode == M_POS ? "pid_pos" : "pid_inc", k, set, fdb);
         ret = call_pid(c, mode, set, fdb);
         ++vf.evals;
@@ -675,7 +768,7 @@ static void case_pid(vf_rng *r, int exact)
         if (twin)
         {
             double rt = call_pid(twin, mode, set, fdb);
-            judge_twin(CTL_PID, mode, since_zero, c, ret, twin, rt);
+            judge_twin(CTL_PID, mode, since_zero, c, ret, twin, rt, nrec > 0);
         }
         nclamp[1 + o.clamped] += 1;
         ninh += (unsigned)o.inhibited;
@@ -1126,10 +1219,276 @@ static void judge_fzcfg(unsigned k, fzcfg const *a, a_pid_fuzzy const *c)
 }
 
 /* ------------------------------------------------------------------ fuzzy PID cases */
-static void case_fuzzy(vf_rng *r, uint64_t q, int exact)
+/* Generators shared by the initial configuration and by the rule bases swapped in mid-history (for the initial configuration: the same draws
+   in the same order as before the reconfiguration clauses were added, so the histories without reconfiguration keep their content). */
+static double fz_gen_parts(vf_rng *r, fz_t *f, int exact, double keepR)
 {
+    double R;
+    if (exact)
+    {
+        int const style = f->opr == A_PID_FUZZY_CAP_ALGEBRA ? (vf_chance(r, 3, 4) ? 0 : 2) : (int)vf_below(r, 3);
+        double ext = 2;
+        part_exact(r, &f->pe, f->n, style);
+        part_exact(r, &f->pec, f->n, vf_chance(r, 1, 2) ? style : (int)vf_below(r, 3));
+        for (unsigned i = 0; i < f->n; ++i)
+        {
+            for (unsigned j = 0; j < mf_nparams(f->pe.s[i].type); ++j) { if (fabs(f->pe.s[i].p[j]) > ext) { ext = fabs(f->pe.s[i].p[j]); } }
+        }
+        R = rint(ext * (vf_chance(r, 1, 4) ? 1.5 : 0.75)) + 1;
+    }
+    else if (keepR > 0)
+    {
+        /* a rule base swapped in mid-history covers the amplitude the inputs already have */
+        double d = keepR / ((double)f->n * vf_uniform(r, 0.3, 2));
+        if (d > 1e5) { d = 1e5; }
+        part_real(r, &f->pe, f->n, d);
+        part_real(r, &f->pec, f->n, d * vf_logu(r, -1, 1));
+        R = keepR;
+    }
+    else
+    {
+        double const d = vf_logu(r, -3, 5);
+        part_real(r, &f->pe, f->n, d);
+        part_real(r, &f->pec, f->n, d * vf_logu(r, -1, 1));
+        R = d * (double)f->n * vf_uniform(r, 0.3, 2);
+        if (R > 1e6) { R = 1e6; }
+    }
+    return R;
+}
+/* n x n consequent table of gain gi for the base gains in force: effective ki = base + offset stays >= 0 (the quantifier) */
+static double *fz_gen_consequents(vf_rng *r, fz_t const *f, int gi, int exact)
+{
+    double *t = (double *)xmalloc(f->n * f->n * sizeof(double));
+    for (unsigned i = 0; i < f->n * f->n; ++i)
+    {
+        if (exact)
+        {
+            /* effective ki = base + offset stays >= 1/16 (or exactly 0 with an all-zero table): inside the quantifier ki >= 0 */
+            int const b16 = (int)(f->base[1] * 16);
+            t[i] = gi == 1 ? (b16 > 0 ? gen_gain16(r, -(b16 - 1), 32) : (f->base[1] == 0 && vf_chance(r, 1, 2) ? 0.0 : gen_gain16(r, 0, 32))) : gen_gain16(r, -48, 48);
+        }
+        else
+        {
+            double const m = vf_logu(r, -4, 5.5);
+            t[i] = gi == 1 ? (vf_chance(r, 1, 2) ? m : -vf_unit(r) * f->base[1] / 2) : vf_sign(r) * m;
+        }
+    }
+    return t;
+}
+/* a new base gain for gain gi that keeps the quantifier with the tables in force (ki: base >= - the most negative ki consequent) */
+static double fz_gen_base(vf_rng *r, fz_t const *f, int gi, int exact)
+{
+    if (gi == 1)
+    {
+        double lo = 0;
+        if (f->mk[1]) { for (unsigned i = 0; i < f->n * f->n; ++i) { if (-f->mk[1][i] > lo) { lo = -f->mk[1][i]; } } }
+        if (exact) { return lo + (vf_chance(r, 1, 4) ? 0.0 : gen_gain16(r, 0, 16)); }
+        return lo * vf_uniform(r, 1, 2) + (vf_chance(r, 1, 6) ? 0.0 : vf_logu(r, -4, 5));
+    }
+    if (exact) { return gi == 2 && vf_chance(r, 1, 4) ? 0.0 : gen_gain16(r, -32, 32); }
+    return gi == 2 && vf_chance(r, 1, 4) ? 0.0 : vf_sign(r) * vf_logu(r, -4, 5.5);
+}
+static void fz_log_tables(fz_t const *f)
+{
+    part_log("e", &f->pe);
+    part_log("ec", &f->pec);
+    for (int gi = 0; gi < 3; ++gi)
+    {
+        char buf[900];
+        size_t o = 0;
+        if (!f->mk[gi]) { continue; }
+        for (unsigned i = 0; i < f->n * f->n && o + 30 < sizeof buf; ++i) { o += (size_t)snprintf(buf + o, sizeof buf - o, " %.9g", f->mk[gi][i]); }
+        vf_log("consequents of %s (row = e set, column = ec set):%s", gi == 0 ? "kp" : gi == 1 ? "ki" : "kd", buf);
+    }
+}
+
+/* ---- reconfiguration of a fuzzy controller between two steps, through every documented route.
+ *
+ * What the headers state (pid_fuzzy.h): kp/ki/kd of a_pid_fuzzy are the BASE constants, mkp/mki/mkd the rule bases of the three gains (a NULL
+ * table: that gain is not tuned - the step code tests each table pointer, and lua/src/pid_fuzzy.c and src/lib.rs create controllers whose
+ * table pointers are null), the embedded `pid` is the plain controller that executes the step; test/pid_fuzzy.h writes the configuration
+ * fields (limits, tables, order, operator) directly and installs two rule bases one after the other.  The gain the step uses is base + tuned offset, recomputed on EVERY step from the
+ * configuration in force at that step (a_pid_fuzzy_set_rule / set_opr / set_kpid / set_bfuzz only store their arguments; none of them touches
+ * the controller state).  Consequences that are judged:
+ *   - after a_pid_fuzzy_set_rule (different order, different membership tables, any NULL pattern of the three consequent tables, a new scratch
+ *     block of the documented size for the new tables through a_pid_fuzzy_set_bfuzz, or the old block when it is large enough) the next step
+ *     uses the new rule base; a gain whose table is NULL equals its base gain bitwise after every step;
+ *   - after a_pid_fuzzy_set_kpid, or after a write to the public base fields kp/ki/kd (documented public fields, `pub` in the Rust binding;
+ *     the repository's tests write every other configuration field directly), the next step uses base + offset with the NEW base;
+ *   - after a_pid_fuzzy_set_opr the next step uses the new operator;
+ *   - a write to ctx->pid.kp/ki/kd of a TUNED gain (one that has a consequent table) between two fuzzy steps has no effect on the next fuzzy step: pid.k? is
+ *     where the step stores base + offset before it runs the plain controller, so whatever it held before is overwritten - the clause
+ *     "pid.k? == base + weighted mean of consequents after every step" (fuzzy-gains-exact, in force since round 1) already demands that
+ *     independently of the previous content of pid.k?; scribbling over it only supplies previous contents that configure-once histories
+ *     never produce.  (The scribble is applied to the controller under test only, not to the fresh twin.)
+ *   - limits: the public fields of the embedded pid, as for the plain controller.
+ * The zero-vs-fresh twin (created from garbage memory with the configuration in force at the zeroing) receives every later reconfiguration
+ * through the setters and its own scratch block. */
+typedef struct { unsigned nrec, nswap, ndrop, nbase, nscrib; } fzrec_t;
+static void fz_reconfigure(vf_rng *r, fz_t *f, a_pid_fuzzy *twin, void **twin_bf, int exact, gen_t *g, unsigned k, fzrec_t *st)
+{
+    static char const *const GN[3] = {"kp", "ki", "kd"};
+    a_pid_fuzzy *const c = f->c;
+    a_pid const snap = c->pid;
+    unsigned const ev = (unsigned)vf_below(r, 12);
+    ++st->nrec;
+    if (ev < 4)
+    {
+        fz_t nf = *f; /* same controller object, operator and base gains */
+        unsigned const pat = (unsigned)vf_below(r, 8); /* bit gi set: gain gi has a consequent table */
+        int const full = !vf_chance(r, 1, 3), bfuzz_first = vf_chance(r, 1, 2);
+        int dropped = 0, new_block;
+        void *const old_bf = f->bfuzz, *const old_tbf = twin ? *twin_bf : NULL;
+        void *new_tbf = NULL;
+        char cnt[56];
+        if (full)
+        {
+            double R;
+            nf.n = 1 + (unsigned)vf_below(r, 7);
+            memset(&nf.pe, 0, sizeof(nf.pe));
+            memset(&nf.pec, 0, sizeof(nf.pec));
+            R = fz_gen_parts(r, &nf, exact, exact ? 0 : g->R);
+            if (exact) { g->R = R; } /* integer inputs follow the universe of the new tables */
+            for (int gi = 0; gi < 3; ++gi) { nf.mk[gi] = pat >> gi & 1 ? fz_gen_consequents(r, &nf, gi, exact) : NULL; }
+        }
+        else
+        {
+            /* same order and membership tables, another NULL pattern of the consequent tables */
+            for (int gi = 0; gi < 3; ++gi)
+            {
+                if (!(pat >> gi & 1)) { nf.mk[gi] = NULL; }
+                else if (!f->mk[gi] || vf_chance(r, 1, 2)) { nf.mk[gi] = fz_gen_consequents(r, &nf, gi, exact); }
+            }
+        }
+        for (int gi = 0; gi < 3; ++gi) { dropped |= f->mk[gi] && !nf.mk[gi]; }
+        nf.nfuzz = nf.pe.overlap > nf.pec.overlap ? nf.pe.overlap : nf.pec.overlap;
+        new_block = nf.nfuzz > f->nfuzz || vf_chance(r, 1, 2);
+        if (!new_block) { nf.nfuzz = f->nfuzz; } /* "a buffer at least A_PID_FUZZY_BFUZZ(num)": the block in place is large enough */
+        vf_log("k=%u a_pid_fuzzy_set_rule: order %u -> %u, %s membership tables, tables kp:%s ki:%s kd:%s (were kp:%s ki:%s kd:%s), scratch %s (num=%u, %zu bytes)%s", k, f->n, nf.n,
+               full ? "new" : "same", nf.mk[0] ? "yes" : "NULL", nf.mk[1] ? "yes" : "NULL", nf.mk[2] ? "yes" : "NULL", f->mk[0] ? "yes" : "NULL", f->mk[1] ? "yes" : "NULL",
+               f->mk[2] ? "yes" : "NULL", new_block ? "= new exact-size malloc block through a_pid_fuzzy_set_bfuzz" : "block kept", nf.nfuzz, (size_t)A_PID_FUZZY_BFUZZ(nf.nfuzz),
+               new_block ? (bfuzz_first ? ", set_bfuzz first" : ", set_rule first") : "");
+        fz_log_tables(&nf);
+        if (new_block)
+        {
+            nf.bfuzz = xmalloc(A_PID_FUZZY_BFUZZ(nf.nfuzz));
+            memset(nf.bfuzz, 0xA5, A_PID_FUZZY_BFUZZ(nf.nfuzz));
+            if (twin) { new_tbf = xmalloc(A_PID_FUZZY_BFUZZ(nf.nfuzz)); memset(new_tbf, 0xA5, A_PID_FUZZY_BFUZZ(nf.nfuzz)); }
+        }
+        if (new_block && bfuzz_first) { a_pid_fuzzy_set_bfuzz(c, nf.bfuzz, nf.nfuzz); }
+        a_pid_fuzzy_set_rule(c, nf.n, nf.pe.flat, nf.pec.flat, nf.mk[0], nf.mk[1], nf.mk[2]);
+        if (new_block && !bfuzz_first) { a_pid_fuzzy_set_bfuzz(c, nf.bfuzz, nf.nfuzz); }
+        judge_state_kept(CTL_FUZZY, "pid_fuzzy_set_rule", k, &snap, &c->pid);
+        VF_COUNT("fuzzy-setter-stores-its-arguments");
+        if (c->nrule != nf.n || c->me != nf.pe.flat || c->mec != nf.pec.flat || c->mkp != nf.mk[0] || c->mki != nf.mk[1] || c->mkd != nf.mk[2] || a_pid_fuzzy_bfuzz(c) != nf.bfuzz ||
+            c->nfuzz != nf.nfuzz || memcmp(&c->kp, f->base, 3 * sizeof(double)) || c->opr != a_pid_fuzzy_opr(f->opr))
+        {
+            vf_viol("pid_fuzzy/configuration-ne-arguments-of-setter/set_rule", "before step %u: after a_pid_fuzzy_set_rule(order %u)%s the controller holds nrule=%u nfuzz=%u (expected %u), base %a %a %a "
+                    "(expected %a %a %a) or a table / scratch / operator pointer other than the one passed", k, nf.n, new_block ? " + a_pid_fuzzy_set_bfuzz" : "", c->nrule, c->nfuzz, nf.nfuzz, c->kp,
+                    c->ki, c->kd, f->base[0], f->base[1], f->base[2]);
+        }
+        if (twin)
+        {
+            if (new_block) { a_pid_fuzzy_set_bfuzz(twin, new_tbf, nf.nfuzz); *twin_bf = new_tbf; }
+            a_pid_fuzzy_set_rule(twin, nf.n, nf.pe.flat, nf.pec.flat, nf.mk[0], nf.mk[1], nf.mk[2]);
+        }
+        /* the replaced tables and scratch blocks are released: a library that kept a pointer to them would read freed memory (ASan) */
+        if (full) { part_free(&f->pe); part_free(&f->pec); }
+        for (int gi = 0; gi < 3; ++gi) { if (f->mk[gi] != nf.mk[gi]) { free(f->mk[gi]); } }
+        if (new_block) { free(old_bf); free(old_tbf); }
+        VF_COUNT("fuzzy-rule-base-swapped-mid-history");
+        if (full && nf.n != f->n) { VF_COUNT("fuzzy-rule-base-order-changed-mid-history"); }
+        if (new_block) { VF_COUNT("fuzzy-scratch-block-replaced-mid-history"); }
+        if (dropped) { VF_COUNT("fuzzy-rule-swap-drops-a-tuned-table"); ++st->ndrop; }
+        snprintf(cnt, sizeof cnt, "fuzzy-swapped-to-tables/%c%c%c", pat & 1 ? 'p' : '-', pat & 2 ? 'i' : '-', pat & 4 ? 'd' : '-');
+        vf_count_dyn(cnt, 1);
+        ++st->nswap;
+        *f = nf;
+    }
+    else if (ev < 6)
+    {
+        double nb[3];
+        for (int gi = 0; gi < 3; ++gi) { nb[gi] = fz_gen_base(r, f, gi, exact); }
+        vf_log("k=%u a_pid_fuzzy_set_kpid(kp=%a ki=%a kd=%a)", k, nb[0], nb[1], nb[2]);
+        a_pid_fuzzy_set_kpid(c, nb[0], nb[1], nb[2]);
+        judge_state_kept(CTL_FUZZY, "pid_fuzzy_set_kpid", k, &snap, &c->pid);
+        VF_COUNT("fuzzy-setter-stores-its-arguments");
+        if (memcmp(&c->kp, nb, 3 * sizeof(double)))
+        {
+            vf_viol("pid_fuzzy/configuration-ne-arguments-of-setter/set_kpid", "before step %u: a_pid_fuzzy_set_kpid(%a, %a, %a) left base gains %a %a %a", k, nb[0], nb[1], nb[2], c->kp, c->ki, c->kd);
+        }
+        if (twin) { a_pid_fuzzy_set_kpid(twin, nb[0], nb[1], nb[2]); }
+        memcpy(f->base, nb, sizeof nb);
+        VF_COUNT("fuzzy-set-kpid-mid-history");
+        ++st->nbase;
+    }
+    else if (ev < 8)
+    {
+        unsigned const mask = 1 + (unsigned)vf_below(r, 7);
+        for (int gi = 0; gi < 3; ++gi)
+        {
+            if (!(mask >> gi & 1)) { continue; }
+            f->base[gi] = fz_gen_base(r, f, gi, exact);
+            vf_log("k=%u write to the public base-gain field %s = %a (table %s)", k, GN[gi], f->base[gi], f->mk[gi] ? "present" : "NULL");
+            if (gi == 0) { c->kp = f->base[0]; }
+            else if (gi == 1) { c->ki = f->base[1]; }
+            else { c->kd = f->base[2]; }
+        }
+        if (twin) { a_pid_fuzzy_set_kpid(twin, f->base[0], f->base[1], f->base[2]); } /* the fresh twin gets the configuration in force through the setter */
+        VF_COUNT("fuzzy-base-field-written-between-steps");
+        ++st->nbase;
+    }
+    else if (ev == 8)
+    {
+        unsigned const opr = (unsigned)vf_below(r, 7);
+        vf_log("k=%u a_pid_fuzzy_set_opr(%u = %s) (was %u)", k, opr, OPR_NAME[opr], f->opr);
+        a_pid_fuzzy_set_opr(c, opr);
+        judge_state_kept(CTL_FUZZY, "pid_fuzzy_set_opr", k, &snap, &c->pid);
+        VF_COUNT("fuzzy-setter-stores-its-arguments");
+        if (c->opr != a_pid_fuzzy_opr(opr)) { vf_viol("pid_fuzzy/configuration-ne-arguments-of-setter/set_opr", "before step %u: a_pid_fuzzy_set_opr(%u) did not store a_pid_fuzzy_opr(%u)", k, opr, opr); }
+        if (twin) { a_pid_fuzzy_set_opr(twin, opr); }
+        f->opr = opr;
+        VF_COUNT("fuzzy-set-opr-mid-history");
+    }
+    else if (ev < 11)
+    {
+        /* see the comment above: the effective gains in the embedded plain controller are recomputed by every fuzzy step */
+        double v[3];
+        for (int gi = 0; gi < 3; ++gi) { v[gi] = vf_sign(r) * vf_logu(r, -2, 4); }
+        /* only the gains that HAVE a consequent table are scribbled over: every implementation has to store base + offset for those on every
+           step.  A gain without a table equals its base; an implementation may keep it in pid.k? from set_kpid / set_rule on instead of
+           rewriting it on every step, and writing ctx->pid.k? behind the fuzzy controller's back is not a documented way to configure it */
+        {
+            unsigned const tuned = (f->mk[0] ? 1u : 0) | (f->mk[1] ? 2u : 0) | (f->mk[2] ? 4u : 0);
+            unsigned const mask = (1 + (unsigned)vf_below(r, 7)) & tuned;
+            vf_log("k=%u write to ctx->pid.%s%s%s (tuned gains only; the next fuzzy step recomputes base + offset): %a %a %a", k, mask & 1 ? "kp " : "", mask & 2 ? "ki " : "", mask & 4 ? "kd" : "", v[0], v[1], v[2]);
+            if (mask & 1) { c->pid.kp = v[0]; }
+            if (mask & 2) { c->pid.ki = v[1]; }
+            if (mask & 4) { c->pid.kd = v[2]; }
+        }
+        VF_COUNT("fuzzy-embedded-pid-gains-scribbled-between-steps");
+        ++st->nscrib;
+    }
+    else
+    {
+        lim_t nl, lim = limits_of(&c->pid);
+        int const which = (int)vf_below(r, 3);
+        gen_limits(r, (int)vf_below(r, LS_N), exact, exact ? 4 * g->R : g->R, &nl);
+        if (which != 1) { lim.outmax = nl.outmax; lim.outmin = nl.outmin; }
+        if (which != 0) { lim.summax = nl.summax; lim.summin = nl.summin; }
+        vf_log("k=%u write to the public limit fields of ctx->pid: summax=%a summin=%a outmax=%a outmin=%a", k, lim.summax, lim.summin, lim.outmax, lim.outmin);
+        set_limits(&c->pid, &lim);
+        if (twin) { set_limits(&twin->pid, &lim); }
+        VF_COUNT("fuzzy-limit-field-written-between-steps");
+    }
+}
+
+static void case_fuzzy(vf_rng *r, uint64_t q, int exact, int reconf)
+{
+    /* reconf: reconfiguration-dense history (<= 160 steps): about every 6th step is preceded by one reconfiguration (fz_reconfigure), the
+       controller is zeroed about every 25 steps; every step is judged with the configuration in force */
     fz_t f;
-    unsigned const L = gen_len(r);
+    unsigned const L = reconf ? 4 + (unsigned)vf_below(r, 157) : gen_len(r);
     int const ls = (int)vf_below(r, LS_N), gc = vf_chance(r, 1, 2) ? G_WALK : (int)vf_below(r, G_NCLS);
     double R;
     lim_t lim;
@@ -1139,33 +1498,22 @@ static void case_fuzzy(vf_rng *r, uint64_t q, int exact)
     qst ref = QST_ZERO;
     int ref_exact = 1, mode = (int)vf_below(r, 3);
     unsigned const psw = vf_chance(r, 1, 3) ? 0 : (unsigned)vf_range(r, 2, 200);
-    unsigned k, since_zero = 0, nexact = 0, nsemi = 0, nnone = 0, i;
+    unsigned k, since_zero = 0, nexact = 0, nsemi = 0, nnone = 0, nzero = 0;
+    fzrec_t rec;
     double last = 0;
     memset(&f, 0, sizeof(f));
+    memset(&rec, 0, sizeof(rec));
     f.opr = (unsigned)(q % 7);
     f.n = 1 + (unsigned)(q / 7 % 7);
+    R = fz_gen_parts(r, &f, exact, 0);
     if (exact)
     {
-        int const style = f.opr == A_PID_FUZZY_CAP_ALGEBRA ? (vf_chance(r, 3, 4) ? 0 : 2) : (int)vf_below(r, 3);
-        double ext = 2;
-        part_exact(r, &f.pe, f.n, style);
-        part_exact(r, &f.pec, f.n, vf_chance(r, 1, 2) ? style : (int)vf_below(r, 3));
-        for (i = 0; i < f.n; ++i)
-        {
-            for (unsigned j = 0; j < mf_nparams(f.pe.s[i].type); ++j) { if (fabs(f.pe.s[i].p[j]) > ext) { ext = fabs(f.pe.s[i].p[j]); } }
-        }
-        R = rint(ext * (vf_chance(r, 1, 4) ? 1.5 : 0.75)) + 1;
         f.base[0] = gen_gain16(r, -32, 32);
         f.base[1] = vf_chance(r, 1, 6) ? 0.0 : gen_gain16(r, 0, 32);
         f.base[2] = vf_chance(r, 1, 4) ? 0.0 : gen_gain16(r, -32, 32);
     }
     else
     {
-        double const d = vf_logu(r, -3, 5);
-        part_real(r, &f.pe, f.n, d);
-        part_real(r, &f.pec, f.n, d * vf_logu(r, -1, 1));
-        R = d * (double)f.n * vf_uniform(r, 0.3, 2);
-        if (R > 1e6) { R = 1e6; }
         f.base[0] = vf_sign(r) * vf_logu(r, -4, 5.5);
         f.base[1] = vf_chance(r, 1, 6) ? 0.0 : vf_logu(r, -4, 5.5);
         f.base[2] = vf_chance(r, 1, 4) ? 0.0 : vf_sign(r) * vf_logu(r, -4, 5.5);
@@ -1173,39 +1521,16 @@ static void case_fuzzy(vf_rng *r, uint64_t q, int exact)
     for (int gi = 0; gi < 3; ++gi)
     {
         if (vf_chance(r, 1, 8)) { continue; } /* NULL table: that gain is not scheduled */
-        f.mk[gi] = (double *)xmalloc(f.n * f.n * sizeof(double));
-        for (i = 0; i < f.n * f.n; ++i)
-        {
-            if (exact)
-            {
-                /* effective ki = base + offset stays >= 1/16 (or exactly 0 with an all-zero table): inside the quantifier ki >= 0 */
-                int const b16 = (int)(f.base[1] * 16);
-                f.mk[gi][i] = gi == 1 ? (b16 > 0 ? gen_gain16(r, -(b16 - 1), 32) : (f.base[1] == 0 && vf_chance(r, 1, 2) ? 0.0 : gen_gain16(r, 0, 32))) : gen_gain16(r, -48, 48);
-            }
-            else
-            {
-                double const m = vf_logu(r, -4, 5.5);
-                f.mk[gi][i] = gi == 1 ? (vf_chance(r, 1, 2) ? m : -vf_unit(r) * f.base[1] / 2) : vf_sign(r) * m;
-            }
-        }
+        f.mk[gi] = fz_gen_consequents(r, &f, gi, exact);
     }
     f.nfuzz = f.pe.overlap > f.pec.overlap ? f.pe.overlap : f.pec.overlap;
     gen_limits(r, ls, exact, exact ? 4 * R : R, &lim);
     gen_init(&g, r, gc, exact, R, L);
-    vf_log("a_pid_fuzzy, %s regime: operator %u (%s), order %u, scratch = malloc(A_PID_FUZZY_BFUZZ(%u) = %zu bytes), base kp=%a ki=%a kd=%a, tables kp:%s ki:%s kd:%s, summax=%a summin=%a "
+    vf_log("a_pid_fuzzy, %s regime%s: operator %u (%s), order %u, scratch = malloc(A_PID_FUZZY_BFUZZ(%u) = %zu bytes), base kp=%a ki=%a kd=%a, tables kp:%s ki:%s kd:%s, summax=%a summin=%a "
            "outmax=%a outmin=%a (limits: %s), %u steps, input=%s amplitude=%a",
-           exact ? "exact" : "real", f.opr, OPR_NAME[f.opr], f.n, f.nfuzz, (size_t)A_PID_FUZZY_BFUZZ(f.nfuzz), f.base[0], f.base[1], f.base[2], f.mk[0] ? "yes" : "NULL",
-           f.mk[1] ? "yes" : "NULL", f.mk[2] ? "yes" : "NULL", lim.summax, lim.summin, lim.outmax, lim.outmin, LS_NAME[ls], L, G_NAME[gc], R);
-    part_log("e", &f.pe);
-    part_log("ec", &f.pec);
-    for (int gi = 0; gi < 3; ++gi)
-    {
-        char buf[900];
-        size_t o = 0;
-        if (!f.mk[gi]) { continue; }
-        for (i = 0; i < f.n * f.n && o + 30 < sizeof buf; ++i) { o += (size_t)snprintf(buf + o, sizeof buf - o, " %.9g", f.mk[gi][i]); }
-        vf_log("consequents of %s (row = e set, column = ec set):%s", gi == 0 ? "kp" : gi == 1 ? "ki" : "kd", buf);
-    }
+           exact ? "exact" : "real", reconf ? ", reconfiguration-dense history" : "", f.opr, OPR_NAME[f.opr], f.n, f.nfuzz, (size_t)A_PID_FUZZY_BFUZZ(f.nfuzz), f.base[0], f.base[1], f.base[2],
+           f.mk[0] ? "yes" : "NULL", f.mk[1] ? "yes" : "NULL", f.mk[2] ? "yes" : "NULL", lim.summax, lim.summin, lim.outmax, lim.outmin, LS_NAME[ls], L, G_NAME[gc], R);
+    fz_log_tables(&f);
     f.c = fz_ctx_new(&f, &lim, &f.bfuzz);
     judge_zeroed(CTL_FUZZY, &f.c->pid, "a_pid_fuzzy_init on a garbage-filled struct");
     VF_COUNT("init-zero-state");
@@ -1219,9 +1544,9 @@ static void case_fuzzy(vf_rng *r, uint64_t q, int exact)
         fzgain G;
         qstep o;
         qst p;
-        if (since_zero > 0 && vf_below(r, 400) == 0)
+        if (since_zero > 0 && vf_below(r, reconf ? 25 : 400) == 0)
         {
-            vf_log("k=%u a_pid_fuzzy_zero + fresh twin", k);
+            vf_log("k=%u a_pid_fuzzy_zero + fresh twin%s", k, rec.nrec ? " with the configuration in force" : "");
             a_pid_fuzzy_zero(f.c);
             judge_zeroed(CTL_FUZZY, &f.c->pid, "a_pid_fuzzy_zero");
             free(twin);
@@ -1231,8 +1556,11 @@ static void case_fuzzy(vf_rng *r, uint64_t q, int exact)
             ref = QST_ZERO;
             ref_exact = 1;
             since_zero = 0;
+            ++nzero;
             VF_COUNT("zero-mid-history");
+            if (rec.nrec) { VF_COUNT("fuzzy-zero-after-reconfiguration"); }
         }
+        if (reconf && vf_below(r, 6) == 0) { fz_reconfigure(r, &f, twin, &twin_bf, exact, &g, k, &rec); }
         mode = next_mode(r, mode, psw, 7);
         gen_next(&g, r, k, last, &set, &fdb);
         before = f.c->pid;
@@ -1253,6 +1581,23 @@ static void case_fuzzy(vf_rng *r, uint64_t q, int exact)
             break;
         }
         judge_fzcfg(k, &cfg0, f.c);
+        if (rec.nrec) { VF_COUNT("steps-judged-after-reconfiguration"); }
+        /* a gain without rule table is not tuned: after every step the effective gain is the base gain in force, bitwise (base + 0) */
+        for (int gi = 0; gi < 3; ++gi)
+        {
+            double const got = gi == 0 ? f.c->pid.kp : gi == 1 ? f.c->pid.ki : f.c->pid.kd, basef = gi == 0 ? f.c->kp : gi == 1 ? f.c->ki : f.c->kd;
+            if (f.mk[gi]) { continue; }
+            VF_COUNT("fuzzy-null-table-gain-equals-base");
+            if ((memcmp(&got, &basef, sizeof(double)) && !(got == 0 && basef == 0)) || memcmp(&basef, &f.base[gi], sizeof(double)))
+            {
+                char b1[512];
+                vf_viol(rec.nrec ? "pid_fuzzy/untuned-gain-ne-base-after-reconfiguration" : "pid_fuzzy/untuned-gain-ne-base",
+                        "step %u a_pid_fuzzy_%s(set=%a, fdb=%a): the rule table of %s is NULL (gain not tuned), base gain in force %a (field holds %a), but pid.%s=%a after the step; %u "
+                        "reconfigurations so far in this history (%u rule-base swaps, %u of them dropping a table, %u base-gain changes, %u writes to the embedded pid gains), %u zeroings; before %s",
+                        k, MODE_NAME[mode], set, fdb, gi == 0 ? "kp" : gi == 1 ? "ki" : "kd", f.base[gi], basef, gi == 0 ? "kp" : gi == 1 ? "ki" : "kd", got, rec.nrec, rec.nswap, rec.ndrop,
+                        rec.nbase, rec.nscrib, nzero, fmt_pid(b1, sizeof b1, &before));
+            }
+        }
         p = qst_of(&before);
         if (exact)
         {
@@ -1319,12 +1664,20 @@ static void case_fuzzy(vf_rng *r, uint64_t q, int exact)
         if (twin)
         {
             double rt = call_fuzzy(twin, mode, set, fdb);
-            judge_twin(CTL_FUZZY, mode, since_zero, &f.c->pid, ret, &twin->pid, rt);
+            judge_twin(CTL_FUZZY, mode, since_zero, &f.c->pid, ret, &twin->pid, rt, rec.nrec > 0);
         }
         cell(CTL_FUZZY, mode, f.opr, f.n, &f.c->pid, mode == M_POS);
         if (vf.case_viol) { break; }
     }
-    if (vf_want_sample() && exact && L > 100 && !vf.case_viol && nexact > 50 && nsemi > 5)
+    if (vf_want_sample() && exact && reconf && L > 60 && !vf.case_viol && rec.nswap > 2 && rec.ndrop > 0 && rec.nbase > 1 && nzero > 0 && nexact > 20)
+    {
+        vf_sample("a_pid_fuzzy exact regime, reconfiguration-dense history of %u integer steps (%s): %u reconfigurations between steps (%u x a_pid_fuzzy_set_rule with another order / membership "
+                  "tables / NULL pattern, %u of them dropping a consequent table; %u base-gain changes through a_pid_fuzzy_set_kpid or the public fields; %u writes to the embedded pid gains; the "
+                  "rest a_pid_fuzzy_set_opr and limit fields), %u x a_pid_fuzzy_zero followed by a fresh twin with the configuration in force: %u steps judged bitwise against the __float128 "
+                  "reference with the configuration in force, %u by the one-step oracle; untuned gains equal the base gain after every step",
+                  L, G_NAME[gc], rec.nrec, rec.nswap, rec.ndrop, rec.nbase, rec.nscrib, nzero, nexact, nsemi);
+    }
+    if (vf_want_sample() && exact && !reconf && L > 100 && !vf.case_viol && nexact > 50 && nsemi > 5)
     {
         vf_sample("a_pid_fuzzy exact regime: operator %s, order %u, scratch malloc(%zu) for at most %u active sets, %u integer steps (%s): %u steps judged bitwise (gains, integrator, "
                   "output), %u by the one-step __float128 oracle, %u with no set firing",
@@ -1510,7 +1863,7 @@ static void case_fuzzy_singleton(vf_rng *r, uint64_t q)
         if (ztwin)
         {
             double rz = call_fuzzy(ztwin, mode, set, fdb);
-            judge_twin(CTL_FUZZY, mode, since_zero, &f.c->pid, ret, &ztwin->pid, rz);
+            judge_twin(CTL_FUZZY, mode, since_zero, &f.c->pid, ret, &ztwin->pid, rz, 0);
         }
         cell(CTL_FUZZY, mode, f.opr, f.n, &f.c->pid, mode == M_POS);
         if (vf.case_viol) { break; }
@@ -1549,9 +1902,13 @@ static char const *fmt_neuro(char *b, size_t cap, a_pid_neuro const *c)
     return b;
 }
 
-static void case_neuro(vf_rng *r, int exact)
+static void case_neuro(vf_rng *r, int exact, int reconf)
 {
-    unsigned const L = gen_len(r);
+    /* reconf: reconfiguration-dense history (<= 160 steps): about every 6th step is preceded by a_pid_neuro_set_kpid, a_pid_neuro_set_wpid, a write
+       to the public fields k / wp / wi / wd or new output limits, the controller is zeroed about every 25 steps.  The one-step oracle evaluates
+       the documented equations on the controller's own previous state, i.e. with the configuration in force at that step; the setters must
+       store their arguments and leave everything else (state, ec, the other configuration group) as it is */
+    unsigned const L = reconf ? 4 + (unsigned)vf_below(r, 157) : gen_len(r);
     double const R = exact ? (double)vf_range(r, 1, 100) : vf_logu(r, -3, 6);
     int const ls = vf_chance(r, 1, 3) ? LS_WIDE : vf_chance(r, 1, 2) ? LS_OUT_TIGHT : LS_EDGE, gc = (int)vf_below(r, G_NCLS);
     ncfg_t n;
@@ -1560,7 +1917,7 @@ static void case_neuro(vf_rng *r, int exact)
     a_pid_neuro *c, *twin = NULL;
     int mode = vf_chance(r, 1, 4) ? M_RUN : M_INC, reported_acc = 0, zero_w = 0;
     unsigned const psw = vf_chance(r, 1, 3) ? 0 : (unsigned)vf_range(r, 2, 100);
-    unsigned k, since_zero = 0, i, nclamp = 0;
+    unsigned k, since_zero = 0, i, nclamp = 0, nrec = 0;
     double last = 0;
     if (exact)
     {
@@ -1590,8 +1947,8 @@ static void case_neuro(vf_rng *r, int exact)
     if (lim.outmax > 0x1p30) { lim.outmax = exact ? 0x1p30 : 1e6; }
     if (lim.outmin < -0x1p30) { lim.outmin = exact ? -0x1p30 : -1e6; }
     gen_init(&g, r, gc, exact, R, L);
-    vf_log("a_pid_neuro, %s inputs: K=%a eta_p=%a eta_i=%a eta_d=%a wp=%a wi=%a wd=%a outmax=%a outmin=%a (limits: %s), %u steps, input=%s amplitude=%a", exact ? "integer" : "real", n.k,
-           n.eta[0], n.eta[1], n.eta[2], n.w[0], n.w[1], n.w[2], lim.outmax, lim.outmin, LS_NAME[ls], L, G_NAME[gc], R);
+    vf_log("a_pid_neuro, %s inputs%s: K=%a eta_p=%a eta_i=%a eta_d=%a wp=%a wi=%a wd=%a outmax=%a outmin=%a (limits: %s), %u steps, input=%s amplitude=%a", exact ? "integer" : "real",
+           reconf ? ", reconfiguration-dense history" : "", n.k, n.eta[0], n.eta[1], n.eta[2], n.w[0], n.w[1], n.w[2], lim.outmax, lim.outmin, LS_NAME[ls], L, G_NAME[gc], R);
     c = neuro_new(&n, &lim);
     judge_zeroed(CTL_NEURO, &c->pid, "a_pid_neuro_init on a garbage-filled struct");
     VF_COUNT("init-zero-state");
@@ -1603,7 +1960,7 @@ static void case_neuro(vf_rng *r, int exact)
         double set, fdb, ret, e, ecn, xd;
         a_pid_neuro b4;
         char key[160], b1[700], b2[700];
-        if (since_zero > 0 && vf_below(r, 300) == 0)
+        if (since_zero > 0 && vf_below(r, reconf ? 25 : 300) == 0)
         {
             ncfg_t cur = n;
             vf_log("k=%u a_pid_neuro_zero + fresh twin with the current weights", k);
@@ -1622,10 +1979,83 @@ static void case_neuro(vf_rng *r, int exact)
             since_zero = 0;
             VF_COUNT("zero-mid-history");
         }
+        if (reconf && vf_below(r, 6) == 0)
+        {
+            a_pid_neuro const snap = *c;
+            unsigned const ev = (unsigned)vf_below(r, 8);
+            if (ev < 2)
+            {
+                n.k = exact ? (vf_chance(r, 1, 2) ? 1 : -1) * gen_gain16(r, 1, 64) : vf_sign(r) * vf_logu(r, -3, 4);
+                for (i = 0; i < 3; ++i)
+                {
+                    n.eta[i] = vf_chance(r, 1, 6) ? 0.0 : exact ? gen_gain16(r, vf_chance(r, 1, 4) ? -16 : 0, 16) / 16 : (vf_chance(r, 1, 5) ? -1.0 : 1.0) * vf_logu(r, -8, 1);
+                }
+                vf_log("k=%u a_pid_neuro_set_kpid(k=%a, kp=%a, ki=%a, kd=%a)", k, n.k, n.eta[0], n.eta[1], n.eta[2]);
+                a_pid_neuro_set_kpid(c, n.k, n.eta[0], n.eta[1], n.eta[2]);
+                judge_state_kept(CTL_NEURO, "pid_neuro_set_kpid", k, &snap.pid, &c->pid);
+                VF_COUNT("neuro-setter-stores-arguments-keeps-the-rest");
+                if (memcmp(&c->k, &n.k, 8) || memcmp(&c->pid.kp, n.eta, 3 * sizeof(double)) || memcmp(&c->wp, &snap.wp, 3 * sizeof(double)) || memcmp(&c->ec, &snap.ec, sizeof(double)))
+                {
+                    vf_viol("pid_neuro/configuration-ne-arguments-of-setter/set_kpid", "before step %u: a_pid_neuro_set_kpid(%a, %a, %a, %a): before %s after %s", k, n.k, n.eta[0], n.eta[1],
+                            n.eta[2], fmt_neuro(b1, sizeof b1, &snap), fmt_neuro(b2, sizeof b2, c));
+                }
+                if (twin) { a_pid_neuro_set_kpid(twin, n.k, n.eta[0], n.eta[1], n.eta[2]); }
+                VF_COUNT("neuro-set-kpid-mid-history");
+            }
+            else if (ev < 4)
+            {
+                double w[3];
+                do { for (i = 0; i < 3; ++i) { w[i] = vf_chance(r, 1, 4) ? 0.0 : exact ? gen_gain16(r, -32, 32) : vf_sign(r) * vf_logu(r, -3, 2); } } while (w[0] == 0 && w[1] == 0 && w[2] == 0);
+                vf_log("k=%u a_pid_neuro_set_wpid(wp=%a, wi=%a, wd=%a)", k, w[0], w[1], w[2]);
+                a_pid_neuro_set_wpid(c, w[0], w[1], w[2]);
+                judge_state_kept(CTL_NEURO, "pid_neuro_set_wpid", k, &snap.pid, &c->pid);
+                VF_COUNT("neuro-setter-stores-arguments-keeps-the-rest");
+                if (memcmp(&c->wp, w, 3 * sizeof(double)) || memcmp(&c->k, &snap.k, 8) || memcmp(&c->pid.kp, &snap.pid.kp, 3 * sizeof(double)) || memcmp(&c->ec, &snap.ec, sizeof(double)))
+                {
+                    vf_viol("pid_neuro/configuration-ne-arguments-of-setter/set_wpid", "before step %u: a_pid_neuro_set_wpid(%a, %a, %a): before %s after %s", k, w[0], w[1], w[2],
+                            fmt_neuro(b1, sizeof b1, &snap), fmt_neuro(b2, sizeof b2, c));
+                }
+                if (twin) { a_pid_neuro_set_wpid(twin, w[0], w[1], w[2]); }
+                VF_COUNT("neuro-set-wpid-mid-history");
+            }
+            else if (ev < 7)
+            {
+                /* the public fields: k ("proportional output coefficient"), wp / wi / wd (the weights); the learning constants live in pid.kp/ki/kd */
+                unsigned const which = (unsigned)vf_below(r, 7);
+                double const v = which == 0 ? (exact ? (vf_chance(r, 1, 2) ? 1 : -1) * gen_gain16(r, 1, 64) : vf_sign(r) * vf_logu(r, -3, 4))
+                               : which < 4  ? (exact ? gen_gain16(r, -32, 32) + (vf_chance(r, 1, 2) ? 0.0625 : 0) : vf_sign(r) * vf_logu(r, -3, 2))
+                                            : (exact ? gen_gain16(r, 0, 16) / 16 : vf_logu(r, -8, 1));
+                static char const *const FN[7] = {"k", "wp", "wi", "wd", "pid.kp", "pid.ki", "pid.kd"};
+                double *const dst[7] = {&c->k, &c->wp, &c->wi, &c->wd, &c->pid.kp, &c->pid.ki, &c->pid.kd};
+                vf_log("k=%u write to the public field %s = %a", k, FN[which], v);
+                *dst[which] = v;
+                if (which == 0) { n.k = v; }
+                if (which >= 4) { n.eta[which - 4] = v; }
+                if (twin)
+                {
+                    double *const tdst[7] = {&twin->k, &twin->wp, &twin->wi, &twin->wd, &twin->pid.kp, &twin->pid.ki, &twin->pid.kd};
+                    *tdst[which] = v;
+                }
+                VF_COUNT("neuro-field-written-between-steps");
+            }
+            else
+            {
+                lim_t nl;
+                gen_limits(r, vf_chance(r, 1, 2) ? LS_OUT_TIGHT : LS_EDGE, exact, R * fabs(n.k), &nl);
+                if (nl.outmax > 0x1p30) { nl.outmax = exact ? 0x1p30 : 1e6; }
+                if (nl.outmin < -0x1p30) { nl.outmin = exact ? -0x1p30 : -1e6; }
+                vf_log("k=%u write to the public limit fields outmax=%a outmin=%a", k, nl.outmax, nl.outmin);
+                c->pid.outmax = nl.outmax; c->pid.outmin = nl.outmin;
+                if (twin) { twin->pid.outmax = nl.outmax; twin->pid.outmin = nl.outmin; }
+                VF_COUNT("neuro-limit-field-written-between-steps");
+            }
+            ++nrec;
+        }
         mode = next_mode(r, mode, psw, 5);
         gen_next(&g, r, k, last, &set, &fdb);
         b4 = *c;
         lim = limits_of(&c->pid);
+        if (nrec) { VF_COUNT("steps-judged-after-reconfiguration"); }
         e = set - fdb;
         ecn = e - b4.pid.err;
         xd = ecn - b4.ec;
@@ -1733,7 +2163,7 @@ static void case_neuro(vf_rng *r, int exact)
         if (twin)
         {
             double rt = mode == M_RUN ? a_pid_neuro_run(twin, set, fdb) : a_pid_neuro_inc(twin, set, fdb);
-            judge_twin(CTL_NEURO, mode, since_zero, &c->pid, ret, &twin->pid, rt);
+            judge_twin(CTL_NEURO, mode, since_zero, &c->pid, ret, &twin->pid, rt, nrec > 0);
             VF_COUNT("neuro-twin-weights-bitwise");
             if ((memcmp(&c->wp, &twin->wp, 3 * sizeof(double)) || memcmp(&c->ec, &twin->ec, sizeof(double))) && isfinite(twin->wp + twin->wi + twin->wd))
             {
@@ -1769,12 +2199,15 @@ static void vf_case(uint64_t c, vf_rng *r)
 {
     unsigned const slot = (unsigned)(c % 20);
     uint64_t const blk = c / 20;
+    /* every fourth block, seven of the 20 slots (1 plain exact, 1 plain real, 2 fuzzy exact, 1 fuzzy real, 2 neuron) run the reconfiguration-dense
+       flavour of the same case (histories of <= 160 steps, so the share is taken from the existing plan, not added to it) */
+    int const rc = (blk & 3) == 3;
     if (c >= plan_periodic) { case_fuzzy_singleton(r, c - plan_periodic); }
-    else if (slot < 6) { case_pid(r, 1); }
+    else if (slot < 6) { case_pid(r, 1, rc && slot == 5); }
     else if (slot < 8) { case_pid_equiv(r); }
-    else if (slot < 11) { case_pid(r, 0); }
-    else if (slot < 15) { case_fuzzy(r, blk * 4 + (slot - 11), 1); }
-    else if (slot < 17) { case_fuzzy(r, blk * 2 + (slot - 15), 0); }
-    else if (slot < 19) { case_neuro(r, slot == 17); }
-    else { case_neuro(r, (int)(blk & 1)); }
+    else if (slot < 11) { case_pid(r, 0, rc && slot == 10); }
+    else if (slot < 15) { case_fuzzy(r, blk * 4 + (slot - 11), 1, rc && slot >= 13); }
+    else if (slot < 17) { case_fuzzy(r, blk * 2 + (slot - 15), 0, rc && slot == 16); }
+    else if (slot < 19) { case_neuro(r, slot == 17, rc && slot == 18); }
+    else { case_neuro(r, (int)(blk & 1), rc); }
 }
